@@ -11,9 +11,9 @@ E1, three complete enumerations on the real TokenParser / StringArgs / ArgvArgs:
     option_tokens must be the tokens before the first '--' and has_option_token must agree with it.
 
 (b) inverse law: every list of tokens over {a, e-acute, space, ', ", \\, -, =} that the quoting scheme can
-    express (boxes in BOUNDS_B: quick = <=3 tokens of <=1, <=2 of <=2, 1 of <=5 over the full alphabet and <=2 of
-    <=3 over {a, space, ', ", \\, -}; thorough = <=4 of <=1, 1 of <=5, <=2 of <=3, <=3 of <=2, all over the full
-    alphabet), each token written as '...' or "..." with every embedded quote
+    express (boxes in BOUNDS_B: quick = <=3 tokens of <=1, <=2 of <=2, 1 of <=5 characters over the full alphabet
+    and <=2 of <=3 over {a, space, ', ", \\, -} (e-acute and = are ordinary characters to the scanner);
+    thorough = <=4 of <=1, 1 of <=5, <=2 of <=3, <=3 of <=2, all over the full alphabet), each token written as '...' or "..." with every embedded quote
     (of either kind) backslash-escaped, or bare when it is non-empty and free of whitespace, quotes and
     backslashes; joined by every separator choice out of {" ", "  ", tab, newline} (gap i of layout k uses
     separator (k+i) mod 4, so every separator occurs in every gap) with and without leading / trailing
@@ -275,8 +275,13 @@ def check_b(case):
     return []
 
 
+_TOKENS = {}
+
+
 def tokens_upto(maxlen, alpha="full"):
-    out = []
+    if (maxlen, alpha) in _TOKENS:
+        return _TOKENS[(maxlen, alpha)]
+    out = _TOKENS[(maxlen, alpha)] = []
     for L in range(maxlen + 1):
         for t in itertools.product(ALPHAS[alpha], repeat=L):
             tok = "".join(t)
@@ -503,12 +508,12 @@ def main():
     rep.merge(vsc)
     rep.part("c-equivalence", pool=POOL_C, max_tokens=lc, lines=nlines, cases=nc, formats=3, modes=2,
              with_option_and_quoted_token=ntc, outcomes=tally)
-    # (b) box by box, smallest first; once anything has been found the larger boxes are not run (they would only
-    # repeat it at greater cost) and the evidence says so
+    # (b) box by box, smallest first; once anything has been found the larger boxes (third onwards) are not run
+    # (they would only repeat it at greater cost) and the evidence says so
     nb = ntb = 0
     done, skipped = [], []
-    for box in BOUNDS_B[rep.tier]:
-        if rep.violations:
+    for i, box in enumerate(BOUNDS_B[rep.tier]):
+        if rep.violations and i >= 2:  # the two small boxes always run
             skipped.append(box)
             continue
         n1, nt1, vs1 = part_b(box, done)
